@@ -366,6 +366,9 @@ class Vmap(Generic[R], GenerativeFunction[R]):
         args: tuple[Any, ...],
     ) -> tuple[Score, R]:
         dim_length = self._static_broadcast_dim_length(self.in_axes, args)
+        if dim_length == 0:
+            # nothing to assess: score 0 and the empty stack of return values.
+            return jnp.zeros(()), self.__abstract_call__(*args)
 
         def _inner(idx, args):
             return self.gen_fn.assess(sample(idx), args)
